@@ -91,8 +91,12 @@ def _make_world(book, touch=False):
     else:
         asks, bids = book_rows(book, 0 if touch else 1, 0 if touch else 1)
         c1_mark = float(MARK["C1"])
-    bk = {"C1": dict(kind="CALL", strike=2000, mark=c1_mark, asks=asks, bids=bids),
-          "P1": dict(kind="PUT", strike=1900, mark=float(MARK["P1"]), asks=[[0.03, 2.0], [0.0305, 1.0]], bids=[[0.029, 4.0]])}
+    # C1 belongs to another expiry than the first instrument of the book: it is quoted against its own underlying (0.4 % above the index the market's token
+    # price is taken from), so a limit price given in USD converts with THAT underlying
+    # (A0 sorts first in the hourly frame: the market's token price is taken from the first row of an hour)
+    bk = {"A0": dict(kind="PUT", strike=1500, mark=0.004, asks=[[0.0045, 1.0]], bids=[[0.0035, 1.0]]),
+          "P1": dict(kind="PUT", strike=1900, mark=float(MARK["P1"]), asks=[[0.03, 2.0], [0.0305, 1.0]], bids=[[0.029, 4.0]]),
+          "C1": dict(kind="CALL", strike=2000, mark=c1_mark, asks=asks, bids=bids, basis=1.004)}
     data = db.std_frame(2, books=bk, mark_drift=0.0)
     prices = db.price_frame(data)
     index = data.index.get_level_values(0).unique()
